@@ -788,7 +788,7 @@ func c18Watcher(res *Result) {
 func c14E2E(name string, before, after []world.NodeSpec, key string, wantAddr string, write bool, bound int, alsoOK ...string) *world.Scenario {
 	sc := &world.Scenario{Nodes: before, Bound: bound, Family: "end-to-end", Horizon: 600, RefreshLoop: true, CheckOwner: true,
 		Faults: []world.Fault{{Kind: "nodes-change", Nodes: after}},
-		Ticks:  []time.Duration{1100 * time.Millisecond, 1100 * time.Millisecond, 1100 * time.Millisecond}}
+		Ticks:  []time.Duration{1100 * time.Millisecond, 1100 * time.Millisecond, 1100 * time.Millisecond, 1100 * time.Millisecond}}
 	sc.TickGate = func(w *world.World) bool { return w.FaultsDone() && w.ProbesIdle() }
 	mk := func() Req {
 		if write {
@@ -798,7 +798,7 @@ func c14E2E(name string, before, after []world.NodeSpec, key string, wantAddr st
 	}
 	r0, r1 := mk(), mk()
 	cs := ClientOf([]Req{r0, r1}, false)
-	cs.Chunks[1].WaitTicks, cs.Chunks[1].WaitReplies = 3, 1
+	cs.Chunks[1].WaitTicks, cs.Chunks[1].WaitReplies = 4, 1
 	cs.Chunks[1].Gate = func(w *world.World) bool { return w.ProbesIdle() }
 	sc.Clients = []world.ClientSpec{cs}
 	sc.Name = fmt.Sprintf("C14/e2e/%s/write=%v/d%d", name, write, bound)
@@ -806,7 +806,7 @@ func c14E2E(name string, before, after []world.NodeSpec, key string, wantAddr st
 		if w.RefreshDead {
 			return []world.Violation{{Sig: "refresh-loop-exits-on:valid-text", Msg: "the refresh goroutine terminated during normal probing"}}
 		}
-		// the request sent after three idle ticker rounds must be routed by the new topology straight away
+		// the request sent after four idle ticker rounds ("a few seconds") must be routed by the new topology straight away
 		for _, rec := range w.DataCmds("") {
 			if rec.CR >= 1 && hasKey(rec.Args, key) {
 				ok := rec.Addr == wantAddr
@@ -816,7 +816,7 @@ func c14E2E(name string, before, after []world.NodeSpec, key string, wantAddr st
 					}
 				}
 				if !ok {
-					return []world.Violation{{Sig: "stale-or-wrong-table", Msg: fmt.Sprintf("three ticker rounds after the nodes started to report the new topology (%s), %q was still routed to %s instead of %s", name, rec.Raw, rec.Addr, wantAddr)}}
+					return []world.Violation{{Sig: "stale-or-wrong-table", Msg: fmt.Sprintf("four idle ticker rounds after the nodes started to report the new topology (%s), %q was still routed to %s instead of %s", name, rec.Raw, rec.Addr, wantAddr)}}
 				}
 				break
 			}
